@@ -36,6 +36,8 @@ def canon(x, depth=0):
     if isinstance(x, dict):
         return ["dict", sorted(([canon(k, depth + 1), canon(v, depth + 1)] for k, v in x.items()), key=repr)]
     if isinstance(x, (list, tuple)):
+        if len(x) > 0 and all(hasattr(v, "collections") and hasattr(v, "lines") for v in x) and type(x).__name__ == "ndarray":
+            pass
         return [type(x).__name__] + [canon(v, depth + 1) for v in x]
     if isinstance(x, (set, frozenset)):
         return ["set", sorted((canon(v, depth + 1) for v in x), key=repr)]
@@ -65,6 +67,11 @@ def canon(x, depth=0):
                 except Exception:
                     out.append(["collection", name])
             out.append([canon(t.get_text()) for t in x.texts])
+            try:
+                # filled glyphs / bars (e.g. sequence-logo letters): colour and vertical extent
+                out.append(["patches"] + [[[round(float(v), 6) for v in p.get_facecolor()], round(float(p.get_extents().y0), 3), round(float(p.get_extents().y1), 3)] for p in x.patches][:200])
+            except Exception:
+                out.append(["patches", len(x.patches)])
             return out
         if isinstance(x, types.FunctionType):
             return ["function", x.__qualname__]
@@ -126,3 +133,37 @@ def module_state():
                 continue
             out["%s.%s" % (mname, k)] = canon(v)
     return out
+
+
+def scribble(x, depth=0):
+    """Overwrite a returned object in place (it belongs to the caller): later calls must not be affected."""
+    import numpy as np
+    import pandas as pd
+    if depth > 3:
+        return
+    try:
+        if isinstance(x, np.ndarray):
+            if x.flags.writeable and x.size and x.dtype.kind in "iuf":
+                x[...] = 7
+            elif x.flags.writeable and x.size and x.dtype.kind in "OU":
+                x[...] = "scribbled" if x.dtype.kind == "O" else "s"
+        elif isinstance(x, pd.DataFrame):
+            if len(x) and len(x.columns):
+                for c in list(x.columns):
+                    x[c] = -1
+        elif isinstance(x, pd.Series):
+            if len(x):
+                x.iloc[:] = -1
+        elif isinstance(x, list):
+            for v in x:
+                scribble(v, depth + 1)
+            x.clear()
+        elif isinstance(x, dict):
+            x.clear()
+        elif isinstance(x, set):
+            x.clear()
+        elif isinstance(x, tuple):
+            for v in x:
+                scribble(v, depth + 1)
+    except Exception:
+        pass
